@@ -344,3 +344,6 @@ def run(chk, repo):
             chk.ob('C16.i', 'RI: every exon of the transcript is tested for retaining the intron', ri.where, okc,
                    f"{detail}: a transcript whose LAST exon retains the intron is not recognised as retaining (an Insertion is emitted although an annotated isoform has that form)",
                    key=ri.qual + '::retained-cover', fn=ri.qual)
+    from rules.shared import kwname
+    chk.clauses.append('C16.kw (shared R-THREAD) parameters handed on as keyword arguments keep their name: no `a=b` between two parameters of one function')
+    kwname(chk, repo, 'C16.kw', ['parser.RMATSParser', 'cli.parse_rmats'], floor=0)
